@@ -18,6 +18,10 @@ pub struct Case {
     /// second joint vector and split index for the "link i depends only on joints 1..i" clause
     pub j2: [f64; 6],
     pub split: u8,
+    /// a second robot evaluated on the very same joint vectors in between (call history: the poses must be a pure
+    /// function of parameters and joints, whatever was computed before on this thread)
+    #[serde(default)]
+    pub other: Option<RobotSpec>,
 }
 
 impl Property for C03 {
@@ -47,8 +51,26 @@ impl Property for C03 {
             prop_oneof![6 => joints_mixed(), 2 => joints_huge()],
             joints_uniform(),
             0u8..6,
+            prop_oneof![1 => Just(None), 1 => robot_any(DofChoice::Both).prop_map(Some), 1 => (0u8..6, offset_strategy(), any::<bool>()).prop_map(|x| Some(RobotSpec { a1: f64::NAN, a2: x.0 as f64, b: x.1, c1: if x.2 { 1.0 } else { 0.0 }, c2: 0.0, c3: 0.0, c4: 0.0, offsets: [0.0; 6], signs: [1; 6], dof: 6 }))],
         )
-            .prop_map(|(robot, j, j2, split)| Case { robot, j, j2, split })
+            .prop_map(|(robot, j, j2, split, other)| {
+                // the marker a1 = NaN means: same robot with one offset / sign changed (calibration variants of one geometry)
+                let other = other.map(|o| {
+                    if o.a1.is_nan() {
+                        let mut v = robot;
+                        let k = (o.a2 as usize) % 6;
+                        if o.c1 == 1.0 && v.signs[k] != 0 {
+                            v.signs[k] = -v.signs[k];
+                        } else {
+                            v.offsets[k] += if o.b == 0.0 { 0.25 } else { o.b };
+                        }
+                        v
+                    } else {
+                        o
+                    }
+                });
+                Case { robot, j, j2, split, other }
+            })
             .boxed()
     }
     fn check(&self, c: &Case, ctx: &mut Ctx) -> Res {
@@ -61,6 +83,18 @@ impl Property for C03 {
         let tol_p = 1e-9 * (1.0 + r.reach()) * (1.0 + qmax * 1e-3);
         let tol_a = 1e-9 * (1.0 + qmax * 1e-3);
 
+        // call history: another robot is asked for the same joint vectors first
+        if let Some(o) = &c.other {
+            let ko = opw(o);
+            let lo = no_panic(|| ko.forward_with_joint_poses(&c.j)).map_err(|m| viol!("forward_with_joint_poses must not panic", "{}", m))?;
+            let fo = no_panic(|| ko.forward(&c.j)).map_err(|m| viol!("forward must not panic", "{}", m))?;
+            let mo = o.links(&c.j);
+            let tol = 1e-9 * (1.0 + o.reach()) * (1.0 + c.j.iter().fold(0.0f64, |a, b| a.max(b.abs())) * 1e-3);
+            if let (Some(l5), Some(f)) = (from_na(&lo[5]), from_na(&fo)) {
+                ensure!(dist(&l5.p, &mo[5].p) <= tol && dist(&f.p, &mo[5].p) <= tol, "poses are a function of the parameter set and the joint vector only (first robot of the history)", "other robot: link6 {:?} forward {:?} model {:?}", l5.p, f.p, mo[5].p);
+            }
+            ctx.class("history:another robot evaluated on the same joints first");
+        }
         let k = opw(r);
         let model = r.links(&c.j);
         let fwd = no_panic(|| k.forward(&c.j)).map_err(|m| viol!("forward must not panic", "{}", m))?;
